@@ -84,7 +84,7 @@ fn draw_n(rng: &mut Rng) -> usize {
 }
 
 // ------------------------------------------------------------------------------------ data sets
-const KINDS: [&str; 6] = ["continuous", "lattice", "clustered", "duplicates", "collinear", "near-duplicates"];
+const KINDS: [&str; 7] = ["continuous", "lattice", "clustered", "duplicates", "collinear", "near-duplicates", "geometric"];
 
 /// moves a (rounded-to-T) value by m units in the last place of T
 fn bump<T: RealNumber>(v: f64, m: i64) -> f64 {
@@ -247,6 +247,22 @@ fn gen_rows(rng: &mut Rng, kind: &str, n: usize, d: usize) -> Mat {
             }
             rng.shuffle(&mut ids);
             Mat::from_fn(n, d, |i, j| pts.at(ids[i], j))
+        }
+        "geometric" => {
+            // rows a + q^i·b, i = 0..n-1 (shuffled): every midpoint split of the bounding box peels off a constant
+            // number of rows, so a space-partitioning tree over them is as deep as the data set is long
+            let q: f64 = *rng.pick(&[0.5, 1.0 / 3.0, 2.0 / 3.0, 0.7, 0.9]);
+            let a: Vec<f64> = (0..d).map(|_| if rng.bool(0.5) { 0.0 } else { rng.int(-4, 4) as f64 * 0.5 }).collect();
+            let mut b: Vec<f64> = (0..d).map(|_| if rng.bool(0.3) { 0.0 } else { rng.uni(-2.0, 2.0) }).collect();
+            let j0 = rng.below(d);
+            if b[j0] == 0.0 {
+                b[j0] = 1.0;
+            }
+            // keep q^i inside the normal range of f32 as well (q^i >= 1e-30)
+            let imax = ((-30.0f64 * std::f64::consts::LN_10) / q.ln()).floor() as usize;
+            let mut ids: Vec<usize> = (0..n).map(|i| i % (imax + 1)).collect();
+            rng.shuffle(&mut ids);
+            Mat::from_fn(n, d, |i, j| a[j] + q.powi(ids[i] as i32) * b[j])
         }
         "collinear" => {
             // rows on a line a + t·b (equispaced integer t: many exact ties; or continuous t); some
@@ -1081,6 +1097,7 @@ fit_family!(fit_lattice, "lattice", false, 0.2);
 fit_family!(fit_clustered, "clustered", false, 0.2);
 fit_family!(fit_duplicates, "duplicates", false, 0.2);
 fit_family!(fit_collinear, "collinear", false, 0.2);
+fit_family!(fit_geometric, "geometric", false, 0.2);
 fit_family!(fit_near_duplicates, "near-duplicates", false, 0.3);
 fit_family!(fit_scaled, "any", true, 0.2);
 fit_family!(fit_multiplicities, "multiplicities", false, 0.2);
@@ -1139,6 +1156,7 @@ fn main() {
             Family::new("fit_clustered", 1000, 30000, fit_clustered),
             Family::new("fit_duplicates", 700, 21000, fit_duplicates),
             Family::new("fit_collinear", 500, 15000, fit_collinear),
+            Family::new("fit_geometric", 300, 9000, fit_geometric),
             Family::new("fit_near_duplicates", 300, 6000, fit_near_duplicates),
             Family::new("fit_scaled", 600, 18000, fit_scaled),
             Family::new("fit_multiplicities", 1500, 40000, fit_multiplicities),
